@@ -198,6 +198,17 @@ Definition path_tokens (path : bytes) : bool * list bytes :=
   let path1 := if force_public then firstn (n - 4) path else path in
   (force_public, match path1 with [] => [] | _ => split ch_slash path1 end).
 
+(* str.encode("utf8") of a str whose code points are below 256 (the representation of str used here): code points
+   0x80..0xff become the two bytes 110000xx 10xxxxxx *)
+Fixpoint utf8_latin1 (s : bytes) : bytes :=
+  match s with
+  | [] => []
+  | b :: r =>
+    let v := b2z b in
+    if v <? 128 then b :: utf8_latin1 r
+    else z2b (192 + v / 64) :: z2b (128 + v mod 64) :: utf8_latin1 r
+  end.
+
 (* ---------------------------------------------------------------------------------------------- *)
 Section Bip32.
 Variable pt : Type.
@@ -553,7 +564,7 @@ Definition electrum_subkey (w : ewallet) (path : bytes) : outcome ewallet :=
                          | [n] => Ret (n, [x30])                            (* for_change = 0 -> "0" *)
                          | _ => Raise E_VALUE                               (* (n,) = t *)
                          end;
-  let b := n ++ ch_colon :: for_change ++ ch_colon :: electrum_mpk w in
+  let b := utf8_latin1 (n ++ ch_colon :: for_change ++ [ch_colon]) ++ electrum_mpk w in      (* (str(n) + ":" + str(for_change) + ":").encode("utf8") + mpk *)
   let offset := from_bytes_32 (dsha256 b) in
   match ew_secret w with
   | Some k =>
